@@ -92,7 +92,8 @@ class World:
         self.loop = V.VLoop().install()
         self._M = M
         self._saved_now = M.now
-        M.now = lambda: now  # reproducible bytes (the library stamps messages with the wall clock)
+        self.now_value = now  # the harness owns the wall clock; a check may move it (also backwards) between operations
+        M.now = lambda: self.now_value  # reproducible bytes (the library stamps messages with the wall clock)
         # instance vectors module binds message.now via 'message.now()' attribute lookup: patched through the module
         server_tcp.ConnectionHandler.connections = []
         Router._instance = None
